@@ -393,6 +393,30 @@ pub fn wrap_selects_unsigned(text: &str) -> String {
     out
 }
 
+/// ABLATION (weaker than the identity rewrites above, tried last): drop every size cast `((E) as N)` → `((E))`.
+/// This changes the design on both sides; if the divergence disappears, a size cast is necessary for it.
+pub fn strip_size_casts(text: &str) -> String {
+    let b = text.as_bytes();
+    let mut out = String::with_capacity(text.len());
+    let mut i = 0;
+    while i < b.len() {
+        if text[i..].starts_with(" as ") {
+            let mut j = i + 4;
+            while j < b.len() && b[j].is_ascii_digit() {
+                j += 1;
+            }
+            if j > i + 4 && j < b.len() && b[j] == b')' {
+                i = j;
+                continue;
+            }
+        }
+        let ch = text[i..].chars().next().unwrap();
+        out.push(ch);
+        i += ch.len_utf8();
+    }
+    out
+}
+
 /// Defect classes attributed by running svref with a defect-emulation switch (`svref::sim::set_emulation`):
 /// if svref WITH the emulated defect agrees with the Veryl simulator on the whole trace, the mismatch is that defect.
 pub fn emulations() -> Vec<(&'static str, u8)> {
@@ -410,6 +434,11 @@ pub fn classes() -> Vec<Class> {
         Class { name: "expression-type-signedness-cloned-from-first-operand", rewrite: wrap_comparisons_unsigned },
         Class { name: "expression-type-signedness-cloned-from-first-operand", rewrite: wrap_ternary_conditions_signed },
     ]
+}
+
+/// Ablation classes: tried after the identity rewrites and the svref emulations failed.
+pub fn ablations() -> Vec<Class> {
+    vec![Class { name: "size-cast-of-signed-operand-extension(ablation)", rewrite: strip_size_casts }]
 }
 
 #[cfg(test)]
